@@ -293,10 +293,17 @@ def check_effects(ctx, lib, cfgname="default", prefix=""):
     ctx.check(True, R("nondeterminism"), "inventory", f"{len(reach)} reachable bodies inspected for clock/env/fs/net/thread/rand calls, hash iteration, pointer-to-integer casts")
 
     # ---- 7. clone / compile keep the triple -----------------------------------------------------------
-    cl = ctx.fn("<Expression<'a> as std::clone::Clone>::clone", cfg=cfgname, rule=R("clone-is-same-triple"))
+    check_same_triple(ctx, lib, R("clone-is-same-triple"), cfgname)
+    return counts
+
+
+def check_same_triple(ctx, lib, rule, cfgname="default"):
+    """Clone / Expression::new / Runtime::compile keep (text, tree, runtime) exactly as given: the text an error is located in is
+    the text that was parsed (shared by C13, C16 and C12)."""
+    cl = ctx.fn("<Expression<'a> as std::clone::Clone>::clone", cfg=cfgname, rule=rule)
     if cl is not None:
-        ctx.check(bool(cl.j.get("auto_derived")), R("clone-is-same-triple"), "derived", "Clone for Expression is the derived field-wise impl", cl.span)
-    en = ctx.fn("Expression::<'a>::new", cfg=cfgname, rule=R("clone-is-same-triple"))
+        ctx.check(bool(cl.j.get("auto_derived")), rule, "derived", "Clone for Expression is the derived field-wise impl", cl.span)
+    en = ctx.fn("Expression::<'a>::new", cfg=cfgname, rule=rule)
     if en is not None:
         o = Origins(en, lib)
         aggs = [s for _, _, s in en.stmts() if s["k"] == "assign" and s["rv"]["k"] == "agg" and s["rv"].get("adt") == "Expression"]
@@ -305,8 +312,8 @@ def check_effects(ctx, lib, cfgname="default", prefix=""):
             vals = dict(zip(aggs[0]["rv"]["fnames"], aggs[0]["rv"]["ops"]))
             ok = o.of_operand(vals["ast"]) == {("param", 2)} and o.of_operand(vals["runtime"]) == {("param", 3)} and \
                 o.of_operand(vals["expression"]) == {("param", 1)}
-        ctx.check(ok, R("clone-is-same-triple"), "expression-new", "Expression::new stores exactly (text, tree, runtime) as given", en.span)
-    rc = ctx.fn("runtime::Runtime::compile", cfg=cfgname, rule=R("clone-is-same-triple"))
+        ctx.check(ok, rule, "expression-new", "Expression::new stores exactly (text, tree, runtime) as given", en.span)
+    rc = ctx.fn("runtime::Runtime::compile", cfg=cfgname, rule=rule)
     if rc is not None:
         # spelling-independent (map closure, `?`, match): one Expression::new(expression, <what parse(expression) produced>, self)
         ro = Origins(rc, lib)
@@ -318,8 +325,7 @@ def check_effects(ctx, lib, cfgname="default", prefix=""):
                 all(x[0] == "call" and x[1] == "parser::parse" and set(x[2][0]) == {("param", 2)} for x in a[1])
         pc = [t for bb, t in rc.calls() if t["callee"] == "parser::parse"]
         ok = ok and len(pc) == 1 and ro.of_operand(pc[0]["args"][0]) == {("param", 2)}
-        ctx.check(ok, R("clone-is-same-triple"), "runtime-compile", "Runtime::compile = parse(expression).map(|ast| Expression::new(expression, ast, self))", rc.span)
-    return counts
+        ctx.check(ok, rule, "runtime-compile", "Runtime::compile = parse(expression).map(|ast| Expression::new(expression, ast, self))", rc.span)
 
 
 def _uses_of(body, local):
